@@ -18,7 +18,7 @@ func init() {
 		Rule: "one run = (1) a DefaultLimiter (simple strategy, large limit) over a recording limit delegate on the virtual clock: a seeded sequence of acquire / sleep / complete(outcome) with several tokens outstanding, window size 10..14, window period 1 ms..2 s, threshold 0..1 ms, durations 0 / below / at / above the threshold, drops at every window position, ignored completions, idle gaps; or (2) a WindowedLimit driven directly with (startTime, rtt, in-flight, drop) incl. clock jumps; " +
 			"oracle: a reference window model written from the statement predicts every call of the delegate (no missing, no extra call) and its exact arguments (min / mean rtt, max in-flight, drop flag iff some completion of that window was a drop); " +
 			"non-trivial = at least two windows were closed and one of them contained a drop that was not its last completion; distinct = distinct choice tapes",
-		Real:       []string{"limiter.DefaultLimiter", "limiter.DefaultListener", "limit.WindowedLimit", "measurements.ImmutableSampleWindow", "strategy.SimpleStrategy"},
+		Real:       []string{"limiter.DefaultLimiter", "limiter.DefaultListener", "limit.WindowedLimit", "measurements.ImmutableSampleWindow", "strategy.SimpleStrategy", "limiter.BlockingLimiter / DeadlineLimiter / QueueBlockingLimiter as pass-through wrappers (4 of 7 default-limiter runs)"},
 		Stubs:      []string{"recording core.Limit delegate", "logger", "caller-written strategy wrapper whose tokens report their own count (25% of default-limiter runs)"},
 		FaultKinds: []string{"F-latency", "F-drop", "F-outcome", "F-idle", "F-clock"},
 		Assumptions: []string{"single driving goroutine on the synctest fake clock: measured durations equal the virtual sleeps exactly",
@@ -68,6 +68,22 @@ func runC09Default(r *Run) {
 		r.Fail("harness", "build", "%v", err)
 		return
 	}
+	// the completions may reach the limiter through one of the blocking wrappers (never blocking here: capacity 1000),
+	// with contexts of their own that may be cancelled or expired by the time the request completes: what the
+	// window records is the outcome the caller reported
+	var front core.Limiter = dl
+	wrap := []string{"", "", "", "blocking", "deadline", "lifo", "fifo"}[t.Intn(7, "wrapper")]
+	switch wrap {
+	case "blocking":
+		front = limiter.NewBlockingLimiter(dl, []time.Duration{0, time.Hour}[t.Intn(2, "wrap-timeout")], nopLogger{})
+	case "deadline":
+		front = limiter.NewDeadlineLimiter(dl, time.Now().Add(1000*time.Hour), nopLogger{})
+	case "lifo", "fifo":
+		front = limiter.NewQueueBlockingLimiterFromConfig(dl, limiter.QueueLimiterConfig{Ordering: limiter.QueueOrdering(wrap), MaxBacklogSize: 5, MaxBacklogTimeout: time.Hour, BacklogEvictDoneCtx: t.Chance(50, "wrap-evict")})
+	}
+	if wrap != "" {
+		r.Probe("completions_through_blocking_wrapper")
+	}
 	n := 30 + t.Intn(scale(170, 600), "ops")
 	zeroDur := t.Chance(25, "allow-zero-durations")
 	// slow mode: every completion is at least this old, so the window minimum is large and the
@@ -75,9 +91,10 @@ func runC09Default(r *Run) {
 	slowFloor := []time.Duration{0, 0, minW/2 + 1, minW, 2 * minW}[t.Intn(5, "slow-floor")]
 	r.Mixf("C09 default window-size=%d min=%v max=%v threshold=%v ops=%d zero-durations=%v slow-floor=%v", ws, minW, maxW, thr, n, zeroDur, slowFloor)
 	type tok struct {
-		l     core.Listener
-		start int64
-		f     int
+		l      core.Listener
+		start  int64
+		f      int
+		cancel context.CancelFunc
 	}
 	var out []tok
 	var m winModel
@@ -86,14 +103,38 @@ func runC09Default(r *Run) {
 	calls := 0
 	windows, midDropWindows := 0, 0
 	durs := []time.Duration{thr, thr + 1, thr * 2, ms, 3 * ms, 50 * time.Microsecond, 20 * ms, minW / 2, minW, maxW + 1, time.Nanosecond}
-	burst := 0
+	burst, drainUntraced, aimAtPeriodEnd := 0, 0, false
+	lastLate := int64(0) // how long after the end of its period the last window was closed
 	for i := 0; i < n && !r.Failed(); i++ {
 		act := t.Pick([]int{4, 4, 5}, "act") // 0 sleep, 1 acquire, 2 complete
-		if burst > 0 {
+		if !aimAtPeriodEnd && m.cnt > ws && time.Now().UnixNano() < m.next && t.Chance(12, "aim-at-period-end-ready") {
+			aimAtPeriodEnd = true
+		}
+		if aimAtPeriodEnd && len(out) > 0 {
+			// a ready window exists; the next completion lands just before, exactly at or just after the end of the
+			// period (or halfway): updated if and only if the period is over
+			aimAtPeriodEnd = false
+			if rem := m.next - time.Now().UnixNano(); rem > 2 {
+				// also: well after the end (a late close), and where the period would end had it started at the
+				// previous period's end instead of at the (late) completion that closed the previous window
+				off := []int64{-1, 0, 1, -rem / 2, -rem + 1, minW.Nanoseconds() / 3, -lastLate + 1, -lastLate / 2, -lastLate}[t.Intn(9, "period-end-offset")]
+				if rem+off < 0 {
+					off = -1
+				}
+				time.Sleep(time.Duration(rem + off))
+				r.Probe("completion_aimed_at_period_end")
+			}
+			act = 2
+		} else if drainUntraced > 0 && len(out) > 0 {
+			act = 2
+		} else if burst > 0 {
 			// right after a window closed: a quick series of successes so that a ready window exists
 			// early in the next period (the algorithm must not be updated again before the period ends)
 			burst--
 			act = 1 + burst%2
+			if burst == 0 && t.Chance(60, "aim-at-period-end") {
+				aimAtPeriodEnd = true
+			}
 		}
 		if len(out) == 0 && act == 2 {
 			act = 1
@@ -114,17 +155,29 @@ func runC09Default(r *Run) {
 				r.Fault("F-idle")
 			}
 		case 1:
-			l, ok := dl.Acquire(bg)
+			actx, cancel := bg, context.CancelFunc(nil)
+			if wrap != "" && t.Chance(40, "own-context") {
+				if t.Chance(30, "own-deadline") {
+					actx, cancel = context.WithTimeout(bg, []time.Duration{ms, 20 * ms, time.Second}[t.Intn(3, "own-timeout")])
+				} else {
+					actx, cancel = context.WithCancel(bg)
+				}
+			}
+			l, ok := front.Acquire(actx)
 			if !ok {
-				r.Fail("refused-with-room", "default", "acquire refused at %d of 1000", len(out))
+				r.Fail("refused-with-room", "default", "acquire refused at %d of 1000 (wrapper %q)", len(out), wrap)
 				return
 			}
-			out = append(out, tok{l: l, start: time.Now().UnixNano(), f: len(out) + 1})
+			out = append(out, tok{l: l, start: time.Now().UnixNano(), f: len(out) + 1, cancel: cancel})
 		case 2:
 			k := t.Intn(len(out), "which")
 			tk := out[k]
 			out = append(out[:k], out[k+1:]...)
 			o := t.Pick([]int{7, 1, 2}, "outcome")
+			if drainUntraced > 0 {
+				drainUntraced--
+				o = 1
+			}
 			if age := time.Now().UnixNano() - tk.start; slowFloor > 0 && age < int64(slowFloor) {
 				time.Sleep(slowFloor - time.Duration(age))
 			}
@@ -138,7 +191,14 @@ func runC09Default(r *Run) {
 			if rtt == 0 {
 				r.Fault("F-latency:rtt0")
 			}
+			if tk.cancel != nil && t.Chance(60, "cancel-before-completion") {
+				tk.cancel() // the caller walked away; the request's outcome is still what it reports
+				r.Fault("F-cancel:before-completion")
+			}
 			Complete(tk.l, o)
+			if tk.cancel != nil {
+				tk.cancel()
+			}
 			r.Fault("outcome:" + outcomeNames[o])
 			// reference model
 			folded := false
@@ -211,10 +271,16 @@ func runC09Default(r *Run) {
 				if w > maxW.Nanoseconds() {
 					w = maxW.Nanoseconds()
 				}
+				lastLate = now - m.next
 				m.next = now + w
 				m.reset()
 				if t.Chance(40, "burst-after-close") {
 					burst = 2*ws + 4
+				} else if len(out) >= 3 && t.Chance(35, "drain-untraced-after-close") {
+					// everything that was outstanding when the window closed now completes without a trace (ignored, or
+					// faster than the threshold): the next window knows only the requests that complete into it
+					drainUntraced = len(out)
+					r.Probe("outstanding_at_close_complete_untraced")
 				}
 			} else if len(rec.got) != calls {
 				key := "default/extra"
@@ -228,6 +294,9 @@ func runC09Default(r *Run) {
 	}
 	for _, tk := range out {
 		tk.l.OnIgnore()
+		if tk.cancel != nil {
+			tk.cancel()
+		}
 	}
 	if windows >= 2 && midDropWindows > 0 {
 		r.Nontrivial = true
